@@ -1,4 +1,5 @@
 import Ufw.Props.C14
+import Ufw.Tie.Varint
 #print axioms Ufw.Props.C14.canonical
 #print axioms Ufw.Props.C14.length_eq
 #print axioms Ufw.Props.C14.encode_buf_spec
@@ -10,3 +11,5 @@ import Ufw.Props.C14
 #print axioms Ufw.Props.C14.decoders_agree
 #print axioms Ufw.Props.C14.no_terminator
 #print axioms Ufw.Props.C14.buf_bounds
+#print axioms Ufw.Tie.Varint.const_model
+#print axioms Ufw.Tie.Varint.const_leb128
